@@ -25,6 +25,7 @@ import (
 	"sort"
 	"strings"
 	"sync"
+	"unsafe"
 
 	"github.com/99designs/gqlgen/graphql"
 	"github.com/99designs/gqlgen/graphql/handler"
@@ -249,7 +250,7 @@ type record struct {
 	cfg      string
 }
 
-var seenPtr = map[*graphql.RawParams]bool{}
+var seenPtr = map[uintptr]bool{}
 
 func (s *server) sequential(sid, idx int, q *rq, cfg string) *record {
 	pre, post := &snapshot{}, &snapshot{}
@@ -267,8 +268,8 @@ func (s *server) sequential(sid, idx int, q *rq, cfg string) *record {
 	r := &record{sid: sid, idx: idx, q: q, resp: resp, apqHit: hit, hitKey: hk, hitVal: hv, qcHit: qcHit, cfg: cfg}
 	r.obs = classify(q, resp, pre, post, qcEv) + " apq=" + s.apq.keysDigest() + " qc=" + s.qc.keysDigest()
 	if pre.called && q.kind == "post" {
-		r.reused = seenPtr[pre.ptr]
-		seenPtr[pre.ptr] = true
+		r.reused = seenPtr[uintptr(unsafe.Pointer(pre.ptr))]
+		seenPtr[uintptr(unsafe.Pointer(pre.ptr))] = true
 	}
 	r.docsBad = s.qc.changedDocs()
 	r.unlawful = append(s.qc.unlawful, s.apq.unlawful...)
@@ -446,9 +447,9 @@ func main() {
 	for _, c := range catalogue {
 		texts[c.text] = true
 	}
-	nseq, seqLen, nbatch, batchN := 60, 24, 6, 48
+	nseq, seqLen, nbatch, batchN := 240, 24, 16, 64
 	if *tier == "thorough" {
-		nseq, seqLen, nbatch, batchN = 600, 40, 40, 96
+		nseq, seqLen, nbatch, batchN = 2000, 40, 120, 96
 	}
 	root := rng.New(*seed)
 	var recs []*record
@@ -484,10 +485,15 @@ func main() {
 				recs = append(recs, srv.sequential(sid, i, q, cfg[0]+"/"+cfg[1]))
 			}
 			sid++
-		}
-		emitDefs()
-		for _, r := range recs {
-			emit(r, oracle(r.q, r.hitKey, r.hitVal, r.apqHit), "seq")
+			if n%8 == 7 || n == nseq-1 {
+				// oracle for the histories served so far (the two GC cycles per oracle request also empty the
+				// pool, so this is done between histories, never inside one); records are released afterwards
+				for _, r := range recs {
+					emit(r, oracle(r.q, r.hitKey, r.hitVal, r.apqHit), "seq")
+				}
+				recs = nil
+				fmt.Fprintf(out, "P\tpoolgc\n")
+			}
 		}
 	}
 	// ---- concurrent batches against one server
@@ -536,4 +542,5 @@ func main() {
 			emit(r, orc, "conc")
 		}
 	}
+	emitDefs()
 }
